@@ -322,7 +322,7 @@ def run_compiler_check(ctx, res, prop):
         idx.append(k)
     replies = ctx.model(reqs)
     active = {f["id"]: f for f in ctx.findings if f.get("_active")}
-    stats = dict(event_free=0, event_free_bad=0, failing=0, y1_only=0)
+    stats = dict(event_free=0, event_free_bad=0, failing=0, y1_only=0, in_fragment=0, in_fragment_bad=0)
     for n, k in enumerate(idx):
         job, out = jobs[k], outs[k]
         label, kind, payload, optn, unc, _ = job
@@ -358,6 +358,14 @@ def run_compiler_check(ctx, res, prop):
             if fail and j["wrong"] is None and j["dirty"] is None:
                 stats["y1_only"] += 1
         events = set(rep.get("events", [])) if rep and "error" not in rep else set()
+        # the instance lies in the class of the Lean theorem C02_fragment_partial (single tree-like definition)
+        # and the model reproduces the real gate list: the theorem applies, a wrong output can only be new
+        in_frag = bool(prop == "C02" and rep is not None and not mismatch and rep.get("in_fragment"))
+        if in_frag:
+            stats["in_fragment"] += 1
+            if not rep.get("valid", True):
+                res.disagree(case, "model instance inside the class of C02_fragment_partial rejected by the Lean validator "
+                             "(contradicts the theorem: model and proof out of sync)", code=None, model=dict(valid=False))
         if rep is not None and not mismatch:
             if not events:
                 stats["event_free"] += 1
@@ -370,7 +378,10 @@ def run_compiler_check(ctx, res, prop):
         if fail:
             stats["failing"] += 1
             attributed = []
-            if rep is not None and not mismatch:
+            if in_frag:
+                stats["in_fragment_bad"] += 1
+                what += " (instance inside the class of theorem C02_fragment_partial: never a known finding)"
+            elif rep is not None and not mismatch:
                 if not j["mapped"]:
                     fid = f"{prop}-ret-flat-names"
                     if fid in active:
@@ -414,6 +425,10 @@ def run_compiler_check(ctx, res, prop):
                 "on/off (C02) or on (C03, C06); each compiled circuit is run on ALL 2^n input basis states with an "
                 "independent simulator. distinct by (program, optimizer, uncompute); non-trivial = at least one compound "
                 "expression and >= 2 input bits")
+    if prop == "C02":
+        res.notes.append(f"{stats['in_fragment']} compiled instances lie in the decidable class of the Lean theorem "
+                         "C02_fragment_partial (one definition, tree-like expression over the arguments) with the model "
+                         "reproducing the real gate list: there the theorem applies and a failure is never attributed to a known finding")
     res.notes.append("decided per compiled instance (exhaustive over its inputs) by validators whose soundness is proved; "
                      "the compiler model reproduces the real gate list exactly, ancilla choices logged from the real run")
     return res
